@@ -20,6 +20,11 @@ pub fn open(path: &str) {
     OUT_FD.store(fd, Ordering::SeqCst);
 }
 
+/// the descriptor the case log is written to
+pub fn fd() -> i32 {
+    OUT_FD.load(Ordering::SeqCst)
+}
+
 pub fn line(s: &str) {
     let fd = OUT_FD.load(Ordering::SeqCst);
     let mut buf = Vec::with_capacity(s.len() + 1);
